@@ -1,11 +1,13 @@
 package escheck
 
 import (
+	"bytes"
 	"context"
 	"encoding/json"
 	"fmt"
 	"strings"
 	"sync"
+	"sync/atomic"
 	"testing"
 	"time"
 
@@ -29,6 +31,29 @@ type SharedCase struct {
 	// Derive: the swapper prepares each next version the way an updater
 	// does: Copy of the published version, Compile, SetSpec.
 	Derive bool `json:"derive,omitempty"`
+	// Cold (without Swap): the machines meet concurrently a specification
+	// that was compiled a moment ago and whose inequality variables have
+	// names this process has never matched before; what each obtains
+	// alone is computed afterwards.  (Anything remembered lazily - per
+	// specification or per name - is written in the concurrent phase.)
+	Cold bool `json:"cold,omitempty"`
+}
+
+var coldSeq atomic.Int64
+
+// freshNames gives the specification's inequality variables ("?<lim",
+// "?lim", ...) names no earlier case has used.
+func freshNames(a *sm.ASpec) (*sm.ASpec, error) {
+	js, err := json.Marshal(a)
+	if err != nil {
+		return nil, err
+	}
+	js = bytes.ReplaceAll(js, []byte(`lim"`), []byte(fmt.Sprintf(`lim%d"`, coldSeq.Add(1))))
+	var b sm.ASpec
+	if err := json.Unmarshal(js, &b); err != nil {
+		return nil, err
+	}
+	return &b, nil
 }
 
 func genShared(t *rapid.T) SharedCase {
@@ -49,6 +74,8 @@ func genShared(t *rapid.T) SharedCase {
 	c.Swap = rapid.IntRange(0, 2).Draw(t, "swap") == 0
 	if c.Swap {
 		c.Derive = rapid.Bool().Draw(t, "derive")
+	} else {
+		c.Cold = rapid.Bool().Draw(t, "cold")
 	}
 	return c
 }
@@ -134,6 +161,15 @@ func stamped(a *sm.ASpec, version string) *sm.ASpec {
 }
 
 func checkShared(c SharedCase) (v ev.Verdict) {
+	if c.Cold && !c.Swap {
+		fresh, err := freshNames(c.Spec)
+		if err != nil {
+			v.Failf("renaming: %v", err)
+			return
+		}
+		c.Spec = fresh
+		v.Class("cold")
+	}
 	spec, err := c.Spec.Compiled()
 	if err != nil {
 		v.Failf("spec does not compile: %v", err)
@@ -142,15 +178,15 @@ func checkShared(c SharedCase) (v ev.Verdict) {
 	n := len(c.States)
 	before := specText(spec)
 	if !c.Swap {
-		seq := make([]string, n)
-		for i := 0; i < n; i++ {
-			seq[i] = walkObs(spec, c.Nodes[i], c.States[i], c.Messages[i])
-		}
-		actions := 0
-		for _, s := range seq {
-			if strings.Contains(s, "a1 ->") || strings.Contains(s, "a2 ->") || strings.Contains(s, "a3 ->") {
-				actions++
+		var seq []string
+		alone := func() {
+			seq = make([]string, n)
+			for i := 0; i < n; i++ {
+				seq[i] = walkObs(spec, c.Nodes[i], c.States[i], c.Messages[i])
 			}
+		}
+		if !c.Cold {
+			alone()
 		}
 		for round := 0; round < c.Rounds; round++ {
 			got := make([]string, n)
@@ -213,6 +249,9 @@ func checkShared(c SharedCase) (v ev.Verdict) {
 			wg.Wait()
 			close(stopCompile)
 			cwg.Wait()
+			if seq == nil {
+				alone()
+			}
 			for i := 0; i < n; i++ {
 				if got[i] != seq[i] {
 					v.Failf("machine %d walked concurrently with %d others against one spec:\n got   %s\n alone %s", i, n-1, ev.Trunc(got[i], 600), ev.Trunc(seq[i], 600))
@@ -223,6 +262,12 @@ func checkShared(c SharedCase) (v ev.Verdict) {
 		if specText(spec) != before {
 			v.Failf("the compiled specification changed while it was being used")
 			return
+		}
+		actions := 0
+		for _, s := range seq {
+			if strings.Contains(s, "a1 ->") || strings.Contains(s, "a2 ->") || strings.Contains(s, "a3 ->") {
+				actions++
+			}
 		}
 		v.NonTrivial = n >= 4 && actions >= 1
 		v.Class(fmt.Sprintf("machines:%d", n))
